@@ -495,6 +495,7 @@ var unspecifiedPoints = []string{
 	"unspecified: Uint32SliceDelete that removes the last value — proto says the key is preserved, the SDK says the empty treasure (and an empty swamp) is removed; both accepted; Uint32SliceDelete on a non-slice key may fail or be a no-op but must not change the key",
 	"unspecified: order of values in a uint32 set (the SDK documents append order for pushes only; compared as a set, repeated members are a violation); order of multi-key answers",
 	"unspecified: a key named several times in one key list (Get, GetByKeys, Delete, AreKeysExist, ShiftByKeys) — it may be answered once or once per occurrence; for Delete at least one DELETED is demanded for an existing key, the other statuses are free",
+	"unspecified: the order in which the items of one Set request are applied — for a key named several times in one request every order of its items is accepted, but the statuses and the stored value must equal some sequential processing (request order tried first); several sections for the same swamp in one Set are applied in request order; KeySlicePairs of one Push/Delete are applied in request order (set union/difference commute)",
 	"unspecified: Uint32SlicePush with an empty value list on a missing key (key created empty or not); Uint32SliceDelete with an empty list is a no-op",
 	"unspecified: error codes — only the presence of an error is checked, except FailedPrecondition for missing swamps",
 	"in-memory swamps: data is demanded lost only after a virtual sleep of more than 3x CloseAfterIdle and demanded intact when the sleeps since the start/last eviction sum to less than CloseAfterIdle; nothing in between is generated",
